@@ -93,6 +93,8 @@ void sim_write_result(const char *status, const char *cls, const char *msg)
     if (g_result_written)
         return;
     g_result_written = 1;
+    if (G.steplog)
+        fflush(G.steplog);
     merge_shared();
     if (G.record && g_record_path)
         write_trace_file(g_record_path);
@@ -325,6 +327,8 @@ int main(int argc, char **argv)
             budget = atof(NEXT);
         else if (!strcmp(a, "--record"))
             g_record_path = NEXT;
+        else if (!strcmp(a, "--steplog"))
+            G.steplog = fopen(NEXT, "w");
         else if (!strcmp(a, "--trace-file"))
             trace_in = NEXT;
         else if (!strcmp(a, "--limit")) {
